@@ -272,3 +272,22 @@ func VH_C20_FreshSample() {
 	}
 	vAssert(m.GetResendTimeout() == want, "after a fresh round-trip sample the resend timeout is not the measured value max(1s, multiplier*RTT) (a boost survived the sample)")
 }
+
+// VH_C20_TwoResends: "grows only through retransmission boosts of at most one
+// step per base-timeout interval", across two events. From an arbitrary valid
+// adaptive state two DATA packets are retransmitted less than one base timeout
+// apart (a resent queue puts its packets on the wire back to back): the boost
+// count grows by at most one over both, however old the last boost was.
+func VH_C20_TwoResends() {
+	m := vTM(false)
+	base := m.resendBooster.originalTimeout
+	bc0 := m.resendBooster.boostCount
+	m.Sent(&PacketData{Seq: vU8("seq1")}, true)
+	d := vI64("t_gap")
+	vAssume(d >= 0 && time.Duration(d) < base)
+	vAdvance(time.Duration(d))
+	m.Sent(&PacketData{Seq: vU8("seq2")}, true)
+	vReach("two-resends")
+	vAssert(m.resendBooster.originalTimeout == base, "base timeout changed by Sent events")
+	vAssert(m.resendBooster.boostCount <= bc0+1, "two retransmissions less than one base timeout apart boosted the resend timeout by more than one step")
+}
